@@ -279,6 +279,15 @@ func c19GenFault(r *rng, n int, w *bufio.Writer) {
 		if !hasFile {
 			world.specs[0].file = true
 		}
+		if r.chance(2, 3) {
+			// rules living in several buckets of the domains table, queried from each of their domains
+			fAddDomainCluster(r, world)
+			for i := range world.specs {
+				if r.chance(2, 3) {
+					world.specs[i].file = true
+				}
+			}
+		}
 		world.materialise()
 		t := world.truth()
 		pool := fGenQueryPool(r, world, 5+r.n(8))
